@@ -172,6 +172,20 @@ def h_sub_list(columns):
             c.check('a-minus-the-sum-of-the-list-with-missing-columns-as-zero', len(r[col]) == 1 and feq(r[col][0][1], x - (y + z)))
     return h
 
+def h_div_list(columns):
+    """div_(a, [b, c]) divides by the product of the list, under the same column policy"""
+    def h(c):
+        Pm = P(); base = c.day('base')
+        A, oa, ca = frame(c, 'A', 1, base, ('a', 'b')); B, ob, cb = frame(c, 'B', 1, base, ('b', 'c')); C, oc, cc = frame(c, 'C', 1, base, ('a', 'c'))
+        c.assume(X.And(oa[0] == ob[0], ob[0] == oc[0]))
+        r = frame_cells(Pm.div_(A, [B, C], columns = columns))
+        want = ['a', 'b', 'c'] if columns == 'oj' else []
+        c.check('columns', sorted(r.keys()) == want)
+        for col in want:
+            x = ca[col][0] if col in ca else 1.0; y = (cb[col][0] if col in cb else 1.0); z = (cc[col][0] if col in cc else 1.0)
+            c.check('a-over-the-product-of-the-list-with-missing-columns-as-one', len(r[col]) == 1 and feq(r[col][0][1], opf('div', x, opf('mul', y, z))))
+    return h
+
 def gate_frames(stride = 1):
     """the real add_/sub_/mul_/div_ under the real pandas vs under the minipd frame model, on an exhaustive small domain of two-column frames"""
     import pandas as rpd, numpy as np, itertools, pyg_base._pandas as RP
@@ -239,6 +253,7 @@ def obligations(tier):
                                       desc = '%s_ of frames with columns %s and %s, column policy %s, index policy %s' % (op, COLSETS[ia], COLSETS[ib], columns, join)))
     for columns in ('oj',):          # under 'ij' the pre-summed list may collapse to one column, which then broadcasts (single-column frames act as series)
         obs.append(Ob('frames.sub-list.%s' % columns, h_sub_list(columns), setup = S, budget_s = 300, desc = 'sub_(a, [b, c], columns=%s) on frames with different column sets' % columns))
+        obs.append(Ob('frames.div-list.%s' % columns, h_div_list(columns), setup = S, budget_s = 300, desc = 'div_(a, [b, c], columns=%s) on frames with different column sets' % columns))
     for which in ('sum', 'mean', 'count'):
         for n in range(0, N + 1):
             obs.append(Ob('df_%s.%d' % (which, n), h_agg(which, n), setup = S, budget_s = 300 if q else 1500, desc = 'df_%s of two Series of %d rows: union index, NaN skipped' % (which, n)))
